@@ -40,7 +40,7 @@ void ezc3d::ParametersNS::GroupNS::Parameter::print() const
     std::cout << "description = " << _description << std::endl;
 }
 
-void ezc3d::ParametersNS::GroupNS::Parameter::write(std::fstream &f, int groupIdx, std::streampos &dataStartPosition) const
+void ezc3d::ParametersNS::GroupNS::Parameter::write(std::fstream &f, int groupIdx, std::streampos &dataStartPosition, bool isInPointGroup) const
 {
     // The lengths, the number of dimensions and each dimension are stored on one byte each
     // (and the sign of the name length is the lock flag)
@@ -100,7 +100,7 @@ void ezc3d::ParametersNS::GroupNS::Parameter::write(std::fstream &f, int groupId
                 writeImbricatedParameter(f, _dimension, 1);
             }
         } else {
-            if (!_name.compare("DATA_START")){
+            if (isInPointGroup && !_name.compare("DATA_START")){
                 // This is a special case defined in the standard where you write the number of blocks up to the data
                 dataStartPosition = f.tellg();
                 f.write(reinterpret_cast<const char*>(&blank), 2*ezc3d::DATA_TYPE::BYTE);
